@@ -1,6 +1,7 @@
 //! C09 (T3 + round trips).
 //!   wire_replay canon <cases.ndjson> <report.json>   every abstract serialisation enumerated by WireCanon.tla is encoded to real protobuf
 //!        bytes and given to the real `canonical_raw` with a descriptor of the test schema built at run time; result compared with the spec's.
+//!   wire_replay std <cases.ndjson> <report.json>      boundary classes of the std-type conversions (StdValues.tla), all specified lossless
 //!   wire_replay roundtrip <report.json> <seed> <n>    decode(encode(v)) == v, encode is canonical (canonical_raw is the identity on it),
 //!        shuffled / re-split serialisations of v normalise to the same bytes, for seeded values of every public wire / storage type.
 use prost::Message as _;
@@ -182,7 +183,7 @@ fn roundtrip<T: ProtoFmt + PartialEq + std::fmt::Debug>(name: &str, v: &T, rng: 
     });
     match r {
         Err(p) => rep.fail("roundtrip_panic", format!("{name}: panic: {p}"), json!({"type": name})),
-        Ok(Err(e)) => rep.fail("roundtrip_mismatch", format!("{name}: {e}"), json!({"type": name, "value": format!("{v:?}").chars().take(300).collect::<String>()})),
+        Ok(Err(e)) => rep.fail("roundtrip_mismatch", format!("{name}: {e}"), json!({"type": name, "value": catch(|| format!("{v:?}")).unwrap_or_else(|_| "<unprintable>".into()).chars().take(300).collect::<String>()})),
         Ok(Ok(())) => {}
     }
 }
@@ -254,6 +255,83 @@ fn main() {
             rt!(validator::Signed<validator::NetAddress>, "Signed<NetAddress>");
             rep.sample(json!({"seed": seed, "values_per_type": n}));
             rep.write(&a[1]);
+        }
+        "std" => {
+            // boundary classes of the standard-type conversions, enumerated by StdValues.tla (all specified lossless)
+            use std::net::{IpAddr, Ipv4Addr, Ipv6Addr, SocketAddr};
+            use zksync_concurrency::{limiter, time};
+            let mut rng = rand::rngs::StdRng::seed_from_u64(7);
+            let secs_of = |s: &str| -> i64 {
+                match s { "0" => 0, "1" => 1, "-1" => -1, "max" => i64::MAX, "min" => i64::MIN + 1, _ => 1_000_000_000 }
+            };
+            for case in read_cases(&a[1]) {
+                rep.distinct += 1;
+                match case["kind"].as_str().unwrap() {
+                    "sockaddr" => {
+                        let v4 = Ipv4Addr::new(74, 223, 12, 1);
+                        let ip: IpAddr = match case["family"].as_str().unwrap() {
+                            "v4_zero" => Ipv4Addr::UNSPECIFIED.into(),
+                            "v4_loop" => Ipv4Addr::LOCALHOST.into(),
+                            "v4_bcast" => Ipv4Addr::BROADCAST.into(),
+                            "v4_plain" => v4.into(),
+                            "v6_unspec" => Ipv6Addr::UNSPECIFIED.into(),
+                            "v6_loop" => Ipv6Addr::LOCALHOST.into(),
+                            "v6_plain" => Ipv6Addr::new(0x2001, 0xdb8, 0, 0, 0, 0, 0, 1).into(),
+                            "v6_mapped_v4" => v4.to_ipv6_mapped().into(),
+                            "v6_compat_v4" => Ipv6Addr::new(0, 0, 0, 0, 0, 0, 0x4adf, 0x0c01).into(),
+                            "v6_mapped_zero" => Ipv4Addr::UNSPECIFIED.to_ipv6_mapped().into(),
+                            "v6_linklocal" => Ipv6Addr::new(0xfe80, 0, 0, 0, 0, 0, 0, 1).into(),
+                            _ => Ipv6Addr::new(0xffff, 0xffff, 0xffff, 0xffff, 0xffff, 0xffff, 0xffff, 0xffff).into(),
+                        };
+                        let v = SocketAddr::new(ip, case["port"].as_u64().unwrap() as u16);
+                        roundtrip::<SocketAddr>("std::net::SocketAddr", &v, &mut rng, &mut rep);
+                        // ... and inside the signed message that carries it on the wire
+                        let key: validator::SecretKey = rng.gen();
+                        let na = validator::NetAddress { addr: v, version: 1, timestamp: time::UNIX_EPOCH };
+                        let signed = key.sign_msg(na);
+                        roundtrip::<validator::Signed<validator::NetAddress>>("Signed<NetAddress>", &signed, &mut rng, &mut rep);
+                        let dec: Result<validator::Signed<validator::NetAddress>, _> = zksync_protobuf::decode(&zksync_protobuf::encode(&signed));
+                        rep.evaluations += 1;
+                        if let Ok(d) = dec {
+                            if d.verify().is_err() {
+                                rep.fail("roundtrip_signature_breaks", "an honestly signed NetAddress no longer verifies after encode + decode (hash of the decoded value differs)", json!({"mode": "std", "case": case}));
+                            }
+                        }
+                    }
+                    "duration" | "utc" => {
+                        let nanos = case["nanos"].as_i64().unwrap();
+                        let neg = case["neg"].as_bool().unwrap_or(false);
+                        let d = time::Duration::seconds(secs_of(case["secs"].as_str().unwrap())).checked_add(time::Duration::nanoseconds(if neg { -nanos } else { nanos }));
+                        let Some(d) = d else {
+                            rep.count("std_case_not_representable");
+                            continue;
+                        };
+                        if d.whole_seconds() == i64::MIN || (d.whole_seconds() == i64::MIN + 1 && d.subsec_nanoseconds() < 0) {
+                            rep.count("std_case_outside_the_property_domain");
+                            continue;
+                        }
+                        if case["kind"] == "duration" {
+                            roundtrip::<time::Duration>("time::Duration", &d, &mut rng, &mut rep);
+                        } else {
+                            let u = time::UNIX_EPOCH + d;
+                            roundtrip::<time::Utc>("time::Utc", &u, &mut rng, &mut rep);
+                        }
+                    }
+                    "bitvec" => {
+                        let len = case["len"].as_u64().unwrap() as usize;
+                        let pat = case["pattern"].as_str().unwrap().to_string();
+                        let v = bit_vec::BitVec::from_fn(len, |i| match pat.as_str() { "zeros" => false, "ones" => true, "alt" => i % 2 == 0, _ => i + 1 == len });
+                        roundtrip::<bit_vec::BitVec>("BitVec", &v, &mut rng, &mut rep);
+                    }
+                    "rate" => {
+                        let refresh = match case["refresh"].as_str().unwrap() { "0" => time::Duration::ZERO, "1" => time::Duration::nanoseconds(1), _ => time::Duration::MAX };
+                        let v = limiter::Rate { burst: case["burst"].as_u64().unwrap() as usize, refresh };
+                        roundtrip::<limiter::Rate>("limiter::Rate", &v, &mut rng, &mut rep);
+                    }
+                    _ => rep.count("std_case_unknown_kind"),
+                }
+            }
+            rep.write(&a[2]);
         }
         _ => panic!("mode"),
     }
